@@ -66,7 +66,10 @@ class KeepDirectoryStrategy(NamingStrategy):
 class DuplicateNamingStrategy(NamingStrategy):
 
     def should_be_applied(self, local_dir: str, local_filename: str) -> bool:
-        return os.path.exists(os.path.join(local_dir, local_filename))
+        # A symbolic link whose target does not exist (anymore) also occupies
+        # the name: writing to it would create the file the link points to
+        local_path = os.path.join(local_dir, local_filename)
+        return os.path.exists(local_path) or os.path.islink(local_path)
 
 
 class NumberDuplicateStrategy(DuplicateNamingStrategy):
